@@ -1,5 +1,5 @@
 CONSTANTS NV = 3  MaxPower = 3  SlotKinds = {"absent","nil","valid","forged","other","missing"}  Extras = {"none","dup","unknown"}
-  QuorumRule = "exact"  CountDuplicates = FALSE  DropOnMismatch = TRUE  Part = "commit"
+  QuorumRule = "exact"  CountDuplicates = FALSE  DropOnMismatch = TRUE  PowerCap = 1000000  Part = "commit"
 INIT Init
 NEXT Next
 INVARIANTS AcceptOnlyWithQuorum AcceptWellFormedWithQuorum NeverExceedsTotal FirmOnlyIfCommitted DataOnlyIfBound Export
